@@ -33,7 +33,7 @@ def instantiations(tier, seed):
         forms = {l: FORMS[(n + k + seed) % 3] for n, l in enumerate(lv)}
         ids = pl.explicit_ids(m)
         ov = rng.sample(ids, min(len(ids), 2)) if (k % 2 == 0) else []
-        out.append({"model": m, "forms": forms, "override": ov, "ovform": FORMS[(k + 1) % 3]})
+        out.append({"model": m, "forms": forms, "override": ov, "ovform": FORMS[(k + 1) % 3], "warm": k % 3 == 1})
         if k % 3 == 0:
             # the interpretation wins over the declared bounds (documented: variable("a", bounds=(1,1)).evaluate({"a": 0}) == (0,0)):
             # leaf values free in [-2^20, 2^20] whatever the box, boxes may be degenerate
@@ -91,6 +91,9 @@ def run_inst(spec, run):
         i1, i2 = interp(), interp()
         err = None
         try:
+            if spec.get("warm"):
+                plh.warm(ns, m1)
+                plh.warm(ns, m2)
             r = m1.evaluate_propositions(i1)
             top = m2.evaluate(i2)
         except Exception as e:      # noqa
